@@ -24,6 +24,11 @@ def r1(cx):
     cx.check(bad == 0 and n > 1000, "forward step: action and barrier state agree with the oracle on all %d input combinations (%d MIR paths)" % (n, len(leaves)),
              "history-forward-table", b.where(), "the history cursor's forward step differs from the oracle on %d of %d input combinations, e.g. %s" % (bad, n, examples[:1]),
              examples=examples)
+    cx.check(ht.ABOVE["bad"] == 0, "versions newer than the timestamp window still act as barriers (hard delete / replace above the window erase what lies inside it)",
+             "history-window-ignores-barrier", b.where(),
+             "with a timestamp window the history cursor skips versions above the window BEFORE it records hard-delete / replace barriers (%d input combinations, e.g. %s): "
+             "`set k@10; hard-delete k@30; history(ts 5..20)` lists k@10 although it was erased -- and no longer lists it after the next compaction"
+             % (ht.ABOVE["bad"], ht.ABOVE["examples"][:1]), examples=ht.ABOVE["examples"])
     # backward: barrier search newest-first, stops at the first barrier; valid_start = idx+1 for hard delete, idx for replace
     cb = f.body("HistoryIterator::collect_user_key_backward")
     rev = [c for c in cb.calls if c.bb in cb.live and c.primary.endswith("::rev")]
